@@ -9,3 +9,7 @@ open RV.C03
 #print axioms plain_decimal_relex
 #print axioms plain_bool_relex
 #print axioms unguarded_double_loses
+#print axioms isValidList_proper
+#print axioms isValidList_terminates
+#print axioms old_isValidList_accepts_malformed
+#print axioms old_isValidList_diverges_on_cycle
